@@ -1,9 +1,9 @@
-\* GEN_users -- generated by mkcfg.py; two users whose names differ in case only, on one 5-tuple: ownership checks on every method; U1 is over its allocation quota
+\* GEN_quota -- generated by mkcfg.py; user q1 may hold one allocation at a time (counting quota handler): retransmission and second Allocate are answered before the quota is asked
 SPECIFICATION Spec
 VIEW View
 CONSTANTS
-  Clients = {"c1"}
-  Users = {"u1", "U1"}
+  Clients = {"c1", "c2"}
+  Users = {"q1", "u1"}
   PeerIPs = {"A"}
   PeerPorts = {1}
   Fam <- MCFam
@@ -24,7 +24,7 @@ CONSTANTS
   Denied <- MCNoDenied
   Toks = {"none"}
   ResvTO = 30
-  QuotaDenied = {"U1"}
+  QuotaDenied = {}
   MaxDepth = 5
 CONSTRAINT DepthBound
 ACTION_CONSTRAINT EmitEdge
